@@ -31,6 +31,12 @@ def gen_script(rng, cid, kind=None):
         for nm in rng.sample(TOML_NAMES, 2) + rng.sample(OTHER_NAMES, 3):
             files.append((d, nm))
             ops.append("w.file %d %s" % (d, hx(nm)))
+    if rng.random() < 0.15:
+        # one of the four directories is missing at start-up: the other three are watched all the same
+        gone = rng.randrange(4)
+        files = [f for f in files if f[0] != gone]
+        ops = [o for o in ops if not o.startswith("w.file %d " % gone)]
+        ops.append("w.nodir %d" % gone)
     ops.append("w.start")
     exp = [("start", {"started"})]
     kind = kind or rng.choice(["mods", "mods", "mods", "cancel-idle", "cancel-pending", "cancel-pending", "burst"])
@@ -68,7 +74,8 @@ def gen_script(rng, cid, kind=None):
             ops.append("w.mod %d %s m" % (d, hx(nm)))
             group.append((nm, "m"))
         if rng.random() < 0.4:
-            ops.append("w.sleep %d" % rng.choice([30, 150, 400]))   # late consumer
+            # late consumer; very late (a reload of many devices takes seconds) in one script of sixteen
+            ops.append("w.sleep %d" % (1300 if relevant and cid % 16 == 5 else rng.choice([30, 150, 400])))
         ops.append("w.drain 500" if relevant else "w.drain 300")
         exp.append(("notify" if relevant else "silent", {"some"} if relevant else {"zero"}, group))
     if kind == "cancel-idle" or (kind in ("mods", "burst") and rng.random() < 0.5):
